@@ -42,7 +42,7 @@ func init() {
 	// bstaged <stages string hex> <queries> — the staged *builder* (flags --stages/--iterationFrequency/--distribution
 	// none), its assembled rate function probed at the query offsets -> <durationNs> <rates> | err
 	register("bstaged", func(a []string) string {
-		b := staged.Rate()
+		b, _ := builderOf("staged")
 		fs := pflag.NewFlagSet("verif", pflag.ContinueOnError)
 		fs.AddFlagSet(b.Flags)
 		if err := fs.Parse([]string{"--stages", unhex(a[0]), "--iterationFrequency", "1s", "--distribution", "none"}); err != nil {
@@ -62,7 +62,7 @@ func init() {
 	// bramp <startRate> <endRate> <unitNs> <rampDurNs> <maxDurNs> <queries> — the ramp *builder* on
 	// `--start-rate --end-rate --ramp-duration --max-duration --distribution none` -> <rates> | err
 	register("bramp", func(a []string) string {
-		b := ramp.Rate()
+		b, _ := builderOf("ramp")
 		fs := pflag.NewFlagSet("verif", pflag.ContinueOnError)
 		fs.AddFlagSet(b.Flags)
 		fs.DurationP("max-duration", "d", time.Second, "")
